@@ -938,4 +938,40 @@ example : (Seg.cplx .IQ [0] [1, 0] 1 (.fleaf 3 [2, 3])).wf = true ∧ (Seg.cplx 
     ((Seg.cplx .QI [0] [1, 0] 1 (.fleaf 3 [2, 3])).readSrc [⟨1, some 2, 1⟩]).toList =
       [.pair (.leaf 3 [0, 1]) (.leaf 3 [1, 1])] := by decide
 
+/-! ### non-vacuity of the extension (SEG2) -/
+
+/-- a raw-basis subset: rows 1 and 3, columns 5, 3, 1 of a stored 4 x 6 array whose formatted view is the transpose of the
+    row-reversed array; the subset shows the same orientation of the raw selection -/
+def exRaw (sq : Bool) : Seg := .subsetR sq [⟨1, some 4, 2⟩, ⟨5, none, -2⟩] [0] [1, 0] (.leaf 0 [4, 6])
+
+example : (exRaw false).wf = true ∧ (exRaw false).fshape = [3, 2] ∧
+    (exRaw false).fullSrc.toList = [.leaf 0 [3, 5], .leaf 0 [1, 5], .leaf 0 [3, 3], .leaf 0 [1, 3], .leaf 0 [3, 1], .leaf 0 [1, 1]] ∧
+    (((((Seg.leaf 0 [4, 6]).fullSrc.select [⟨1, some 4, 2⟩, ⟨5, none, -2⟩]).flip [0]).transpose [1, 0] [1, 0]).toList =
+      (exRaw false).fullSrc.toList) := by decide
+/-- one raw row only (squeezed): a 1-d segment -/
+example : (Seg.subsetR true [⟨1, some 2, 1⟩, ⟨5, none, -2⟩] [0] [1, 0] (.leaf 0 [4, 6])).fshape = [3] ∧
+    ((Seg.subsetR true [⟨1, some 2, 1⟩, ⟨5, none, -2⟩] [0] [1, 0] (.leaf 0 [4, 6])).readSrc [⟨2, none, -2⟩]).toList =
+      [.leaf 0 [1, 1], .leaf 0 [1, 5]] := by decide
+
+/-- a 2 x 6 mosaic whose right block is defined backwards along the columns (`slice(5, 2, -1)`) -/
+def exRev : Seg :=
+  .blocks [2, 6] (.cons [(0, 2), (0, 3)] (.leaf 0 [2, 3]) (.rcons [(0, 2), (3, 6)] [false, true] (.leaf 1 [2, 3]) .nil))
+
+example : exRev.wf = true ∧ exRev.total = false ∧
+    exRev.fullSrc.toList = [.leaf 0 [0, 0], .leaf 0 [0, 1], .leaf 0 [0, 2], .leaf 1 [0, 2], .leaf 1 [0, 1], .leaf 1 [0, 0],
+      .leaf 0 [1, 0], .leaf 0 [1, 1], .leaf 0 [1, 2], .leaf 1 [1, 2], .leaf 1 [1, 1], .leaf 1 [1, 0]] := by decide
+/-- the code serves the subscripts that stay left of the reversed block and refuses those that reach it -/
+example : exRev.accepts [⟨0, some 2, 1⟩, ⟨0, some 3, 1⟩] = true ∧ exRev.accepts [⟨0, some 2, 1⟩, ⟨2, some 6, 3⟩] = false ∧
+    (exRev.readSrc [⟨0, some 2, 1⟩, ⟨0, some 3, 1⟩]).toList = (exRev.fullSrc.select [⟨0, some 2, 1⟩, ⟨0, some 3, 1⟩]).toList := by
+  decide
+
+/-- complex QI with the band dimension kept (first formatted axis, raw axis 1 after the transpose), raw axis 0 reversed -/
+example : (Seg.cplxK .QI [0] [1, 0] 0 (.leaf 0 [3, 4])).fshape = [2, 3] ∧
+    ((Seg.cplxK .QI [0] [1, 0] 0 (.leaf 0 [3, 4])).readSrc [⟨1, some 2, 1⟩, ⟨2, none, -2⟩]).toList =
+      [.pair (.leaf 0 [0, 3]) (.leaf 0 [0, 2]), .pair (.leaf 0 [2, 3]) (.leaf 0 [2, 2])] ∧
+    (Seg.cplxK .QI [0] [1, 0] 0 (.leaf 0 [3, 4])).accepts [⟨1, none, -1⟩, ⟨0, some 3, 1⟩] = false := by decide
+/-- a lookup table over a transposed, column-reversed 2 x 3 array -/
+example : ((Seg.lut1 [1] [1, 0] (.leaf 0 [2, 3])).readSrc [⟨2, none, -2⟩, ⟨0, some 2, 1⟩]).toList =
+    [.lut 0 (.leaf 0 [0, 0]), .lut 0 (.leaf 0 [1, 0]), .lut 0 (.leaf 0 [0, 2]), .lut 0 (.leaf 0 [1, 2])] := by decide
+
 end Sarpy.Props.C01Seg
